@@ -69,7 +69,7 @@ def history(draw):
         if n_pool:
             choices += ["merge", "copy", "copy", "boundary", "load", "subdiv", "translate", "translate", "rotate", "scale", "scale_xyz",
                         "normalize", "fit", "to_origin", "flatten", "edit_inplace", "edit_rebind", "append_vertex", "attr_write",
-                        "query", "roundtrip", "translate", "merge", "add_face", "add_face", "rotate_record", "rotate_record"]
+                        "query", "roundtrip", "translate", "merge", "add_face", "add_face", "rotate_record", "rotate_record", "bad_call"]
         op = draw(st.sampled_from(choices))
         i = draw(st.integers(0, 50))
         if op == "build":
@@ -105,6 +105,8 @@ def history(draw):
             ops.append([op, i, draw(st.integers(0, 50)), draw(vec3)])
         elif op == "rotate_record":
             ops.append([op, i, draw(st.integers(0, 50)), draw(st.sampled_from(["faces", "cells_swap"]))])
+        elif op == "bad_call":
+            ops.append([op, i, draw(st.integers(0, 5))])
         elif op == "flatten":
             ops.append([op, i, draw(st.sampled_from([None, 0, 1, 2]))])
         elif op == "edit_inplace":
@@ -481,6 +483,9 @@ def fn(case, ctx):
                 ok, r = ctx.call("op:" + kind, (lambda: T.normalize(m0, op[2])) if kind == "normalize" else (lambda: T.fit_into_unit_cube(m0)))
                 if not ok: continue
                 mn, mx = mdl0.V.min(axis=0), mdl0.V.max(axis=0)
+                # round-off of the translation is relative to the coordinates' magnitude BEFORE normalising (a mesh far from the
+                # origin compared with its size cannot be centred more precisely than eps * magnitude / extent)
+                tolb = 1e-12 + 64 * 2.3e-16 * float(np.abs(mdl0.V).max()) / float(span.max())
                 if centered:
                     mdl0.V = (mdl0.V - (mn + mx) / 2) * (2 / span.max())
                 else:
@@ -489,10 +494,10 @@ def fn(case, ctx):
                 V, _, _, _ = read_mesh(m0)
                 bmn, bmx = V.min(axis=0), V.max(axis=0)
                 if centered:
-                    ctx.check(np.allclose((bmn + bmx) / 2, 0, atol=1e-12) and abs((bmx - bmn).max() - 2) <= 1e-12, "normalize:bbox",
+                    ctx.check(np.allclose((bmn + bmx) / 2, 0, atol=tolb) and abs((bmx - bmn).max() - 2) <= 2 * tolb, "normalize:bbox",
                               f"{where}: bounding box after normalize is [{bmn.tolist()}, {bmx.tolist()}], expected centred with largest extent 2")
                 else:
-                    ctx.check(np.allclose(bmn, 0, atol=1e-12) and abs((bmx - bmn).max() - 1) <= 1e-12, "normalize:bbox",
+                    ctx.check(np.allclose(bmn, 0, atol=tolb) and abs((bmx - bmn).max() - 1) <= 2 * tolb, "normalize:bbox",
                               f"{where}: bounding box is [{bmn.tolist()}, {bmx.tolist()}], expected anchored at the origin with largest extent 1")
             elif kind == "to_origin":
                 ok, r = ctx.call("op:translate_to_origin", T.translate_to_origin, m0)
@@ -555,6 +560,20 @@ def fn(case, ctx):
                 mdl0.F = mdl0.F + [(b, a, nv)]
                 mdl0.E = mdl0.E + [key(a, nv), key(b, nv)]
                 ctx.label("op=add_face")
+            elif kind == "bad_call":
+                # calls that are expected to raise: afterwards every mesh (the target included) must still equal its model
+                bad = [lambda: T.rotate(m0, [0.1, 0.2]), lambda: T.rotate(m0, np.eye(2)), lambda: T.rotate(m0, "xyz"),
+                       lambda: T.translate(m0, Vec(1., 2.)), lambda: T.scale(m0, 2.0, Vec(1., 2.)), lambda: M.mesh.merge([m0, None])]
+                try:
+                    bad[op[2] % len(bad)]()
+                    ctx.label("bad-call-returned")
+                    target = None
+                    # a call that unexpectedly succeeds may have changed the target legitimately: re-synchronise it
+                    mdl0.V = read_mesh(m0)[0]
+                except Exception:
+                    ctx.label("bad-call-raised")
+                    target = None
+                continue_verify = True
             elif kind == "rotate_record":
                 # user-level raw edit of one element record IN PLACE (only possible when the record is a mutable list or a numpy
                 # row, as produced by the file importers, from_arrays or list input): cyclic rotation of a face keeps the mesh valid
